@@ -214,4 +214,14 @@ theorem mono_all_supplies (i : Inp K) (d : K) (prod' s' c' cap' sl' milk' fish' 
         milk := milk', fish := fish', greenhouse := gh' } total' cap' sl' ht hcap hsl x3 h3
   exact ⟨x4, h4, le_trans o1 (le_trans o2 (le_trans o3 o4))⟩
 
+/-- both retail wastes the LP knows about that admit the law (stored food, outdoor crops) lowered at once -/
+theorem mono_wastes (i : Inp K) (ws' wc' : K) (hs' : ws' ≤ i.wStored) (hs : i.wStored < 100)
+    (hc' : wc' ≤ i.wCrop) (hc : i.wCrop < 100)
+    (hb : 0 ≤ i.billionKcalsNeeded) (hlim : 0 ≤ i.limSwH ∧ 0 ≤ i.limScpH ∧ 0 ≤ i.limCsH)
+    (x : Var → K) (h : Feasible (buildLP i .toHumans) x) :
+    ∃ x', Feasible (buildLP { i with wStored := ws', wCrop := wc' } .toHumans) x' ∧ x .objective ≤ x' .objective := by
+  obtain ⟨x1, h1, o1⟩ := mono_wasteStored i ws' hs' hs hb hlim x h
+  obtain ⟨x2, h2, o2⟩ := mono_wasteCrop { i with wStored := ws' } wc' hc' hc hb hlim x1 h1
+  exact ⟨x2, h2, le_trans o1 o2⟩
+
 end Allfed.C12
